@@ -48,3 +48,17 @@ Theorem C07_P0_depends_on_shifted_commitments : forall (K : Fld) (M : Mod K) bit
   P0 K M bits H G Hs Vs promises A y z = P0 K M bits H G Hs Vs' promises' A y z.
 Proof. exact P0_depends_on_shifted_commitments. Qed.
 Print Assumptions C07_P0_depends_on_shifted_commitments.
+
+(** The algebra behind the promise-substitution attack of the check (tools/props/c07.py): with the commitments and the proof fixed, the promises
+    enter the verification equation only through the ONE scalar  sum_j y^(N+1) z^(2(j+1)) p_j  on the value generator.  Two promise vectors with
+    the same weighted sum give the same two sides of the textbook equation for EVERY proof at given challenges — the algebraic check cannot tell
+    them apart; only the dependence of the challenges on the promises (C07_promise_change_changes_log) does.  Binding the promises into the
+    transcript is necessary. *)
+From BP Require Import Proofs.PromiseSumP.
+Theorem C07_promises_enter_only_through_their_weighted_sum : forall (K : Fld), FldOk K -> forall (M : Mod K), ModOk K M ->
+  forall bits (H : M) (Gb G Hs Vs : list M) (ps ps' : list (option N)) (pf : rproof K M) (y z e : K) (es : list K),
+  length ps = length Vs -> length ps' = length Vs ->
+  wsum K (v_weights K bits (length Vs) y z) ps = wsum K (v_weights K bits (length Vs) y z) ps' ->
+  spec_sides K M bits H Gb G Hs Vs ps pf y z es e = spec_sides K M bits H Gb G Hs Vs ps' pf y z es e.
+Proof. exact sides_promises_only_through_weighted_sum. Qed.
+Print Assumptions C07_promises_enter_only_through_their_weighted_sum.
